@@ -53,7 +53,7 @@ CHECKS = {
  'C05': dict(cat='model_checking', engine='cbmc+irsym', technique='CBMC on the real table/loop functions (loop-shift selection with unwinding assertion, variable declaration limits at enumerated fill levels, every append entry point at 99/100 instructions with a frame check on vars[], compile result classification with a stub back end) and symbolic execution (irsym, LLVM IR) of the real front half of the compiler on programs at and beyond the load/store expansion limits',
              text='Termination and value of the loop-shift selection for every register/variable size; no table is written past its capacity and overruns are refused with an error; every result code is classified and fatal/non-fatal/successful results leave the stated state.',
              note='whole x86/NEON/MIPS/Altivec back ends are outside (the C01 family is compiled concretely with a watchdog); irsym detects out-of-bounds per object, member-to-member overflow through post-state invariants.', ref='DESIGN.md#c05'),
- 'C07': dict(cat='translation_validation', engine='irsym', technique='orcc built from the tree and run on a corpus in every option set; gcc compile gate (header+implementation, normal and DISABLE_ORC); generated wrappers executed symbolically from clang IR (own executor irsym + z3) through the prototype the header declares: executor contract via a probe code object, wrapper+backup, wrapper+real orc_executor_emulate and DISABLE_ORC bodies vs the composition oracle; orc_memcpy/orc_memset vs libc semantics',
+ 'C07': dict(cat='translation_validation', engine='irsym', technique='orcc built from the tree and run on a corpus in every option set; gcc compile gate (header+implementation, normal and DISABLE_ORC); generated wrappers executed symbolically from clang IR (own executor irsym + z3) through the prototype the header declares: executor contract via a probe code object, wrapper+backup, wrapper+real orc_executor_emulate and DISABLE_ORC bodies vs the composition oracle; user-supplied backup functions (.backup): compile gate + argument round trip; orc_memcpy/orc_memset vs libc semantics',
              text='For the corpus (int/float/64-bit/double parameters, strides, constant n/m, accumulators, several destinations, x2, in-place): all orcc outputs compile; the wrapper hands the code exactly the executor the contract of C01/C02 expects for every argument value; backup and DISABLE_ORC bodies compute the emulation semantics for all array contents and parameter values; orc_memcpy/orc_memset equal memcpy/memset for n up to 33 with misaligned pointers.',
              note='n=3, m=2 fixed; first call (once protocol, bytecode reconstruction) is C08/C13; JIT mode by composition with C01 through the executor contract (emulate mode is executed directly); float-arithmetic bodies are C04; --test and --target assembly output outside.', ref='DESIGN.md#c07'),
  'C08': dict(cat='model_checking', engine='evt', technique='own event-order SMT encoding (z3) of the real functions taken from clang LLVM IR: per-thread guarded memory events, integer clocks, read-from under SC, mutexes as atomic test-and-set; queries: exactly-once/visibility post-condition and C11 happens-before data race, for 2..4 threads',
